@@ -58,7 +58,7 @@ def strategy_impl(draw, tier):
             metrics[gen.dim_name(a["name"], p)] = draw(st.lists(metric_vals, min_size=L, max_size=L))
     return {
         "axes": axes,
-        "grid": draw(gen.grid_settings(names, exotic=True)),
+        "grid": draw(gen.grid_settings(names, exotic=False)),
         "op_axes": op_axes,
         "axis_spelling": draw(st.sampled_from(["str", "list", "tuple"] if len(op_axes) == 1 else ["list", "tuple"])),
         "data_pos": data_pos,
